@@ -4,6 +4,7 @@ import (
 	"encoding/json"
 	"fmt"
 	"os"
+	"strings"
 
 	"xmc/core"
 	"xmc/gen"
@@ -207,6 +208,23 @@ func c12Run(c *core.Ctx) {
 			handle(src, len(toks))
 		})
 	})
+	// statements whose last token spans several lines (multi-line template, continued string), followed
+	// by another statement on the literal's last line or the next one
+	for _, lit := range []string{"`one\ntwo`", "`\n`", "`a\n\n  b`", "'a\\\nb'", "`x`"} {
+		for _, tmpl := range []string{"let s = %s\nlet t = 2", "x = %s\ny = 1", "f(%s)\ng()", "function h() {\n  return %s\n  z\n}", "s = [%s]\nt = 1", "if (a) b = %s\nc = 2",
+			"let s = %s;\nlet t = 2;", "x = a + %s\n++y"} {
+			if !c.Next() {
+				continue
+			}
+			src := strings.ReplaceAll(tmpl, "%s", lit)
+			if _, _, ok := ref.GShape(src); !ok {
+				continue
+			}
+			c.Inc("valid_programs")
+			c.Inc("multiline_literal_programs")
+			handle(src, 20)
+		}
+	}
 }
 
 func c12Replay(pl json.RawMessage) (string, []core.Violation) {
